@@ -1097,7 +1097,9 @@ pub(crate) fn to_bytes<T>(table: &T) -> Option<Vec<u8>>
 where
     T: FontWrite + Validate,
 {
-    write_fonts::dump_table(table).ok()
+    write_fonts::dump_table(table)
+        .map_err(|e| log::error!("Unable to generate table bytes: {e}"))
+        .ok()
 }
 
 #[cfg(test)]
